@@ -16,8 +16,19 @@ Inductive op :=
 | OSearch (s : list Z)                        (* s.search(r) *)
 | OSplit (s : list Z) (lim : option Z)        (* s.split(r [, lim]); lim after ToUint32 *)
 | OReplS (s : list Z) (repl : list Z)         (* s.replace(r, repl) *)
-| OReplF (s : list Z)                         (* s.replace(r, logging function) *)
-| OProps.                                     (* r.source, r.global, r.ignoreCase, r.multiline, String(r) *)
+| OReplF (s : list Z) (ret : list Z)          (* s.replace(r, logging function returning ret + "<n>") *)
+| OReplStr (s pat : list Z) (repl : rv)       (* s.replace(pat, text | logging function), pat a string *)
+| OProps                                      (* r.source, r.global, r.ignoreCase, r.multiline, String(r) *)
+  (* a further RegExp object c is made from the current one r and kept:
+     mode 0  new RegExp(r)      1  new RegExp(r, undefined)       (flags arguments ignored)
+     mode 2  RegExp(r.source, flags)      3  new RegExp(r.source, flags)
+     then c === r, c.source, c.global, c.ignoreCase, c.multiline, c.lastIndex and
+     "the five are own properties of c" are observed; r stays the current object *)
+| ONew (mode : Z) (g i m : bool)
+  (* RegExp(r) === r, RegExp(r, undefined) === r, the error name of new RegExp(r, "g") *)
+| OIdent
+  (* the j-th object made so far (modulo their number) becomes the current one *)
+| OSelect (j : nat).
 
 Inductive case :=
   (* a tree of the portable subset, its flags, the pattern text the harness
@@ -56,19 +67,25 @@ Definition legacy_of (s : list Z) (c : caps) : list ov :=
   let strs := map (fun x => OS (cap_str s x)) (firstn 9 c) in
   strs ++ repeat (OS []) (9 - length strs) ++ [OS s; OS s].
 
+(* one RegExp object: its flags and its lastIndex *)
+Definition robj : Type := bool * bool * bool * Z.
+
 Section Run.
 Variable spec_side : bool.       (* true: ES5 protocol; false: otto's *)
-Variable mt : list Z -> nat -> mres.
+Variable mk_mt : bool -> bool -> list Z -> nat -> mres.   (* the matcher for ignoreCase, multiline *)
 Variable dv : dev.
-Variable g : bool.
-Variables (fi fm : bool) (pat : list Z).
+Variable pat : list Z.
 
-Definition flag_text : list Z := (if g then [103] else []) ++ (if fi then [105] else []) ++ (if fm then [109] else []).
+Definition flag_text (g fi fm : bool) : list Z :=
+  (if g then [103] else []) ++ (if fi then [105] else []) ++ (if fm then [109] else []).
 
 Definition lim32 (l : option Z) : Z := match l with None => 4294967295 | Some x => x end.
 
-(* one op: ES5-visible observations (without the trailing lastIndex), new lastIndex, new legacy statics *)
-Definition do_op (o : op) (li : Z) (leg : list ov) : option (list ov * Z * list ov) :=
+(* one op on the current object (g, fi, fm, li): ES5-visible observations (without the
+   trailing lastIndex), its new lastIndex, new legacy statics *)
+Definition do_op (o : op) (ob : robj) (leg : list ov) : option (list ov * Z * list ov) :=
+  let '(g, fi, fm, li) := ob in
+  let mt := mk_mt fi fm in
   let wrap (x : option (list ov * Z)) := match x with None => None | Some (a, l) => Some (a, l, leg) end in
   let ex := if spec_side then exec_spec mt g else exec_model mt dv g in
   match o with
@@ -85,19 +102,49 @@ Definition do_op (o : op) (li : Z) (leg : list ov) : option (list ov * Z * list 
   | OSplit s lim =>
       wrap (if spec_side then split_spec mt li s (lim32 lim)
             else split_model mt li s (lim32 lim) (match lim with None => false | _ => true end))
-  | OReplS s rp => wrap (if spec_side then replace_spec mt g li s (Some rp) else replace_model mt dv g li s (Some rp))
-  | OReplF s => wrap (if spec_side then replace_spec mt g li s None else replace_model mt dv g li s None)
-  | OProps => Some ([OS pat; OB g; OB fi; OB fm; OS ([47] ++ pat ++ [47] ++ flag_text)], li, leg)
+  | OReplS s rp => wrap (if spec_side then replace_spec mt g li s (RText rp) else replace_model mt dv g li s (RText rp))
+  | OReplF s ret => wrap (if spec_side then replace_spec mt g li s (RFun ret) else replace_model mt dv g li s (RFun ret))
+  | OReplStr s p rp =>
+      match (if spec_side then replace_str expand_spec s p rp else replace_str_model dv s p rp) with
+      | None => None
+      | Some a => Some (a, li, leg)
+      end
+  | OProps => Some ([OS pat; OB g; OB fi; OB fm; OS ([47] ++ pat ++ [47] ++ flag_text g fi fm)], li, leg)
+  | ONew mode g' i' m' =>
+      (* 15.10.4.1: a new object, lastIndex 0; from a RegExp argument it takes pattern and flags *)
+      let '(g2, i2, m2) := if mode <? 2 then (g, fi, fm) else (g', i', m') in
+      Some ([OB false; OS pat; OB g2; OB i2; OB m2; OZ 0; OB true], li, leg)
+  | OIdent =>
+      (* 15.10.3.1: RegExp(R) with flags undefined returns R; 15.10.4.1: flags with a RegExp is a TypeError *)
+      Some ([OB true; OB true; OS [84; 121; 112; 101; 69; 114; 114; 111; 114]], li, leg)
+  | OSelect _ => Some ([], li, leg)
   end.
 
-Fixpoint do_ops (ops : list op) (li : Z) (leg : list ov) (acc accl : list ov) : option (list ov * list ov) :=
+Fixpoint set_obj (n : nat) (v : robj) (l : list robj) : list robj :=
+  match l, n with
+  | [], _ => []
+  | _ :: t, O => v :: t
+  | h :: t, S n' => h :: set_obj n' v t
+  end.
+
+Fixpoint do_ops (ops : list op) (objs : list robj) (cur : nat) (leg : list ov) (acc accl : list ov)
+  : option (list ov * list ov) :=
   match ops with
   | [] => Some (acc, accl)
   | o :: rest =>
-      match do_op o li leg with
+      let cur1 := match o with OSelect j => Nat.modulo j (length objs) | _ => cur end in
+      let ob := nth cur1 objs (false, false, false, 0) in
+      match do_op o ob leg with
       | None => None
       | Some (a, li', leg') =>
-          do_ops rest li' leg' (acc ++ a ++ [OZ li'])
+          let '(g, fi, fm, _) := ob in
+          let objs1 := set_obj cur1 (g, fi, fm, li') objs in
+          let objs2 := match o with
+                       | ONew mode g' i' m' =>
+                           objs1 ++ [if mode <? 2 then (g, fi, fm, 0) else (g', i', m', 0)]
+                       | _ => objs1
+                       end in
+          do_ops rest objs2 cur1 leg' (acc ++ a ++ [OZ li'])
                  (match o with OTest _ => accl ++ leg' | _ => accl end)
       end
   end.
@@ -111,11 +158,11 @@ Definition cfg_sem (k : Z) : sem := mkSem (negb (1 <=? k)) (negb (2 <=? k)) (neg
 Definition cfg_dev (k : Z) : dev := mkDev (4 <=? k) (5 <=? k) (6 <=? k) (7 <=? k) (9 <=? k).
 
 Definition run_sd (sm : sem) (dv : dev) (r : re) (g i m : bool) (ops : list op) : option (list ov * list ov) :=
-  do_ops false (engine sm (mkFlags i m) r) dv g i m (print_js r) ops 0 legacy0 [] [].
+  do_ops false (fun fi fm => engine sm (mkFlags fi fm) r) dv (print_js r) ops [(g, i, m, 0)] 0 legacy0 [] [].
 Definition run_cfg (k : Z) := run_sd (cfg_sem k) (cfg_dev k).
 Definition run_otto := run_cfg 9.
 Definition run_es5 (r : re) (g i m : bool) (ops : list op) : option (list ov * list ov) :=
-  do_ops true (engine es5 (mkFlags i m) r) all_off g i m (print_js r) ops 0 legacy0 [] [].
+  do_ops true (fun fi fm => engine es5 (mkFlags fi fm) r) all_off (print_js r) ops [(g, i, m, 0)] 0 legacy0 [] [].
 
 (* finding classes 1..9 = the first deviation that, switched on cumulatively, makes the
    outcome differ from ES5:
